@@ -437,6 +437,13 @@ class SimOmp:
 
 
 _simomp = None
+_stage_fd = None
+
+
+def _stage(b):
+    """Crash attribution: which half of a case (serial twin / parallel run) was executing."""
+    if _stage_fd is not None:
+        os.pwrite(_stage_fd, b, 0)
 
 
 def run_py_case(c, want_trace=False):
@@ -445,6 +452,7 @@ def run_py_case(c, want_trace=False):
     from dtaidistance import dtw
     kw, blk = py_kwargs(c)
     out = {"outcome": "pass", "vclass": None}
+    _stage(b"S")
     # serial twin
     try:
         s1 = build_container(c)
@@ -457,6 +465,7 @@ def run_py_case(c, want_trace=False):
         return out
     s2 = build_container(c)
     par_exc = None
+    _stage(b"P")
     try:
         if c["layer"] == "B":
             if _simomp is None:
@@ -510,8 +519,14 @@ def run_py_case(c, want_trace=False):
     return out
 
 
-def py_batch(layer, seed, frm, count):
+def py_batch_entry(cache, layer, seed, frm, count, progress):
+    _import_pkg(cache)
+    return py_batch(layer, seed, frm, count, progress)
+
+
+def py_batch(layer, seed, frm, count, progress=None):
     """Worker: run `count` generated cases of one Python layer.  Returns counters, hashes, first violation."""
+    pfd = os.open(progress, os.O_WRONLY | os.O_CREAT, 0o644) if progress else None
     res = {"runs": 0, "skipped": 0, "violations": [], "hashes": set(), "counters": {}, "samples": [], "events": 0, "digest": []}
     cnt = res["counters"]
 
@@ -521,6 +536,8 @@ def py_batch(layer, seed, frm, count):
     for i in range(frm, frm + count):
         rng = core.Rng(core.derive(seed, "C07", layer, i))
         c = gen_py_case(rng, layer)
+        if pfd is not None:
+            os.pwrite(pfd, b"%12d" % i, 0)
         r = run_py_case(c)
         res["runs"] += 1
         bump("container:" + c["container"] + (":ndim" if c["ndim"] else ""))
@@ -564,7 +581,69 @@ def py_batch(layer, seed, frm, count):
                 break
     res["hashes"] = sorted(res["hashes"])
     res["digest"] = core.hash_obj(res["digest"])
+    if pfd is not None:
+        os.close(pfd)
     return res
+
+
+# --- isolated re-execution: code under test that corrupts memory must not take the orchestrator down ---------
+
+_CACHE = None
+
+
+def iso(funcname, *args, wall=600):
+    done, _ = core.fanout_isolated("sim.props.c07", funcname, [(_CACHE,) + args], nproc=1, task_wall=wall)
+    return done[0][1]
+
+
+def case_entry(cache, c, want_trace, stagefile=None):
+    global _stage_fd
+    _import_pkg(cache)
+    if stagefile:
+        _stage_fd = os.open(stagefile, os.O_WRONLY | os.O_CREAT, 0o644)
+    return run_py_case(c, want_trace=want_trace)
+
+
+def run_case_iso(c, want_trace=False):
+    stagefile = os.path.join(build.CACHE, "stage-%d" % os.getpid())
+    try:
+        r = iso("case_entry", c, want_trace, stagefile)
+        stage = ""
+        if "crashed" in r:
+            try:
+                with open(stagefile) as f:
+                    stage = f.read(1)
+            except OSError:
+                pass
+    finally:
+        try:
+            os.remove(stagefile)
+        except OSError:
+            pass
+    if "crashed" in r:
+        if stage != "P":
+            # the SERIAL twin died: an input-dependent crash (C08 territory), not a schedule-dependence; the run is void
+            return {"outcome": "skip", "serial_exc": "crash", "detail": r["stderr"][-300:]}
+        return {"outcome": "violation", "vclass": "crash", "detail": "process died with status %s during the parallel run: %s" % (r["crashed"], r["stderr"][-300:])}
+    return r
+
+
+def probe_entry(cache, c, vclass, tries):
+    _import_pkg(cache)
+    return _fails_any_schedule(c, vclass, tries)
+
+
+def probe_iso(c, vclass, tries):
+    r = iso("probe_entry", c, vclass, tries)
+    if isinstance(r, dict) and "crashed" in r:
+        return c if vclass == "crash" else None
+    return r
+
+
+def batch_crashes(c):
+    seed, frm, count = c["batch"]
+    r = iso("py_batch_entry", c["layer"], seed, frm, count, None)
+    return "crashed" in r or bool(r.get("violations"))
 
 
 def py_signature(c, vclass):
@@ -576,7 +655,7 @@ def py_signature(c, vclass):
 
 
 def py_replay_fails(c, vclass=None):
-    r = run_py_case(c)
+    r = run_case_iso(c)
     if r["outcome"] != "violation":
         return False
     return vclass is None or r["vclass"] == vclass
@@ -630,7 +709,7 @@ def minimise_py(c, vclass, log):
         if cur["layer"] == "B" and cur["sched"]["T"] > 2:
             x = json.loads(json.dumps(cur)); x["sched"]["T"] = 2; cands.append(x)
         for x in cands:
-            r = _fails_any_schedule(x, vclass, tries)
+            r = probe_iso(x, vclass, tries)
             if r is not None:
                 cur = r
                 changed = True
@@ -644,7 +723,7 @@ def minimise_py(c, vclass, log):
             return py_replay_fails(x, vclass)
 
         if py_replay_fails(base, vclass):
-            base["sched"]["trace"]["switches"] = sorted(core.ddmin(sw, t, max_tests=300))
+            base["sched"]["trace"]["switches"] = sorted(core.ddmin(sw, t, max_tests=100))
             cur = base
     if cur["layer"] == "C" and cur["sched"].get("trace"):
         # simplest pool schedule that still fails: one worker, in-order
@@ -695,9 +774,10 @@ def fork_batch(seed, frm, count):
 
 
 def main(tier, seed, log=print):
+    global _CACHE
     t_start = time.time()
     cache = build.ensure_build()
-    _import_pkg(cache)
+    _CACHE = cache
     cfg = dict(TIERS[tier])
     scale = float(os.environ.get("VERIF_SCALE", "1"))
     for k in cfg:
@@ -773,21 +853,46 @@ def main(tier, seed, log=print):
             if not ncases:
                 continue
             per = 1000 if layer == "B" else 200
-            tasks = [(layer, seed, f, min(per, ncases - f)) for f in range(0, ncases, per)]
-            done, wall = core.fanout(py_batch, tasks, task_wall=1800, total_wall=3 * 3600, stop_when=lambda r: bool(r["violations"]))
-            agg = {"runs": 0, "skipped_serial_raised": 0, "events": 0}
+            pdir = os.path.join(outdir, "progress")
+            os.makedirs(pdir, exist_ok=True)
+            tasks = [(cache, layer, seed, f, min(per, ncases - f), os.path.join(pdir, "%s%d" % (layer, f))) for f in range(0, ncases, per)]
+            done, wall = core.fanout_isolated("sim.props.c07", "py_batch_entry", tasks, task_wall=1800,
+                                              stop_when=lambda r: "crashed" in r or bool(r["violations"]))
+            agg = {"runs": 0, "skipped_serial_raised": 0, "events": 0, "crashed_workers": 0}
             cnt = {}
             dig = []
             viols = []
             for t, r in done:
+                if "crashed" in r:
+                    # the code under test killed the worker: attribute it to the case in flight
+                    agg["crashed_workers"] += 1
+                    try:
+                        with open(t[5]) as pf:
+                            idx = int(pf.read().strip())
+                    except (OSError, ValueError):
+                        idx = t[3]
+                    if r["crashed"] == -999:
+                        raise core.HarnessError("python-layer worker exceeded its wall-clock limit: " + r["stderr"])
+                    cc = gen_py_case(core.Rng(core.derive(seed, "C07", layer, idx)), layer)
+                    rr = run_case_iso(cc, want_trace=False)
+                    if rr["outcome"] == "violation":
+                        viols.append({"index": idx, "vclass": rr["vclass"], "detail": rr.get("detail"), "case": cc})
+                    elif rr["outcome"] == "skip" and rr.get("serial_exc") == "crash":
+                        raise core.HarnessError("the SERIAL twin crashes the process on generated case %s/%d (%s): not a C07 matter, but the check cannot continue: %s"
+                                                % (layer, idx, json.dumps(cc)[:400], rr.get("detail")))
+                    else:
+                        # not attributable to a single case (delayed effect of earlier memory corruption): the batch is the replay unit
+                        viols.append({"index": t[3], "vclass": "crash-in-batch", "detail": r["stderr"][-300:],
+                                      "case": {"layer": layer, "batch": [seed, t[3], t[4]], "series": [], "kwargs": {}, "use_c": True, "ndim": False}})
+                    continue
                 agg["runs"] += r["runs"]; agg["skipped_serial_raised"] += r["skipped"]; agg["events"] += r["events"]
                 for k, v in r["counters"].items():
                     cnt[k] = cnt.get(k, 0) + v
                 for h in r["hashes"]:
                     all_hashes.add((layer, h))
-                dig.append([t[2], r["digest"]])
+                dig.append([t[3], r["digest"]])
                 viols.extend(r["violations"])
-                if len(samples) < 6:
+                if len([x for x in samples if x.get("layer") == layer]) < 2:
                     samples.extend(r["samples"][:1])
             agg["counters"] = dict(sorted(cnt.items()))
             agg["wall_s"] = round(wall, 2)
@@ -798,14 +903,26 @@ def main(tier, seed, log=print):
             total_runs += agg["runs"]
             log("[C07] layer %s: %d runs (%d skipped: serial raised), %.1f s" % (layer, agg["runs"], agg["skipped_serial_raised"], wall))
             seen_sig = set()
-            for v in sorted(viols, key=lambda v: v["index"]):
+            for v in sorted(viols, key=lambda v: (v["vclass"].startswith("crash"), v["index"])):
                 sig = py_signature(v["case"], v["vclass"])
                 if sig in seen_sig:
                     continue
                 seen_sig.add(sig)
-                if not py_replay_fails(v["case"], v["vclass"]):
-                    raise core.HarnessError("python-layer violation did not reproduce: %s" % sig)
-                small = minimise_py(v["case"], v["vclass"], log)
+                if v["vclass"] == "crash-in-batch":
+                    small = v["case"]
+                    if not batch_crashes(small):
+                        if new_violations:
+                            log("[C07] INFO: a worker died (memory corruption by the code under test) but not reproducibly; other violations are reported")
+                            continue
+                        raise core.HarnessError("a python-layer worker died but neither the case in flight nor the batch reproduces it: %s" % v.get("detail"))
+                else:
+                    if not py_replay_fails(v["case"], v["vclass"]):
+                        if v["vclass"] == "crash" and new_violations:
+                            log("[C07] INFO: a crash of the parallel run did not reproduce in a fresh process; other violations are reported")
+                            continue
+                        raise core.HarnessError("python-layer violation did not reproduce: %s" % sig)
+                    # a crash of the parallel run depends on the real heap layout: keep the case as found
+                    small = v["case"] if v["vclass"] == "crash" else minimise_py(v["case"], v["vclass"], log)
                 sig = py_signature(small, v["vclass"])
                 small.update({"property": PROP, "violation": v["vclass"], "signature": sig, "detail": v.get("detail")})
                 k = core.match_known(known, sig)
@@ -819,6 +936,7 @@ def main(tier, seed, log=print):
                 new_violations.append(path)
         # ---------------- layer C, fork-backed cross-validation ----------------
         if cfg["C_fork"]:
+            _import_pkg(cache)
             per = 100
             tasks = [(seed, f, min(per, cfg["C_fork"] - f)) for f in range(0, cfg["C_fork"], per)]
             done, wall = core.fanout(fork_batch, tasks, task_wall=1800, total_wall=3600)
@@ -882,8 +1000,15 @@ def replay(path, log=print):
             sys.exit(2)
         print("OK replay passes")
         sys.exit(0)
-    _import_pkg(cache)
-    r = run_py_case(c)
+    global _CACHE
+    _CACHE = cache
+    if "batch" in c:
+        if batch_crashes(c):
+            print("VIOLATION property=%s replay=%s class=crash-in-batch" % (PROP, path))
+            sys.exit(1)
+        print("OK replay passes")
+        sys.exit(0)
+    r = run_case_iso(c)
     if r["outcome"] == "violation":
         print("VIOLATION property=%s replay=%s class=%s %s" % (PROP, path, r["vclass"], r.get("detail", "")))
         sys.exit(1)
